@@ -83,6 +83,13 @@ def unsetBits (compressed : Bool) (h : Header) : Header × Option ProtoErr × Bo
   else if r1 then (h, some .unexpectedCompressionBit, compressed)
   else (h, none, compressed)
 
+/-- wsflate.MessageState.SetBits (any incoming RSV). -/
+def setBits (compressed : Bool) (h : Header) : Header × Option ProtoErr :=
+  if h.rsv &&& 4 != 0 then (h, some .unexpectedCompressionBit)
+  else if !opIsData h.op || h.op == opContinuation then (h, none)
+  else if compressed then ({ h with rsv := h.rsv ||| 4 }, none)
+  else (h, none)
+
 /-- Everything outside the reader that callbacks may touch: the destination (control replies),
     collected messages (ReadMessage's OnIntermediate) and a log of control frames handed to handlers. -/
 structure Ctx where
